@@ -15,6 +15,8 @@ Compared: the root's result (by value; objects by identity of the object they re
 `args` (a non-serializable member as `repr`, which is what the property allows), and every function's invocation
 count.  The direct oracle is "distributed == one process" on the real code alone.
 """
+import collections
+import enum
 import json
 import sys
 import time
@@ -62,6 +64,75 @@ CLASSES = [ValueError, KeyError, IndexError, TypeError, ZeroDivisionError, Runti
 CLASS_BY_NAME = dict((c.__name__, c) for c in CLASSES)
 KW_NAMES = ["a", "b", "x", "key", "self", "args", "kw_1", "", "é", "a b", "\U0001F600", "class", "\ud800"]
 MAX_INVOCATIONS = 120
+
+
+# ---- "everything else": objects that are NOT exact instances of brine's types and therefore travel by reference
+class Point(collections.namedtuple("Point", "probe y")):
+    """a namedtuple (tuple subclass with field names)"""
+    __slots__ = ()
+
+
+class TupleSub(tuple):
+    """a tuple subclass with extra state"""
+
+
+class StrSub(str):
+    pass
+
+
+class IntSub(int):
+    pass
+
+
+class BytesSub(bytes):
+    pass
+
+
+class FloatSub(float):
+    pass
+
+
+class FrozensetSub(frozenset):
+    pass
+
+
+class Color(enum.Enum):
+    RED = 1
+    GREEN = 2
+    BLUE = 3
+
+    @property
+    def probe(self):
+        return "enum-" + self.name
+
+
+DATA_KINDS = ["list", "list", "dict", "namedtuple", "tuple-subclass", "str-subclass", "int-subclass", "bytes-subclass",
+              "float-subclass", "frozenset-subclass", "enum"]
+
+
+def data_owner(entry):
+    return entry[0]
+
+
+def data_kind(entry):
+    return entry.split(":", 1)[1] if ":" in entry else "list"
+
+
+def make_data(kind, k):
+    """the object behind key k; every kind except list / dict can be asked for `.probe`"""
+    if kind == "list":
+        return ["data", k]
+    if kind == "dict":
+        return {"data": k}
+    if kind == "namedtuple":
+        return Point("namedtuple-%d" % k, k)
+    if kind == "enum":
+        return [Color.RED, Color.GREEN, Color.BLUE][k % 3]
+    base = {"tuple-subclass": lambda: TupleSub((k, "x")), "str-subclass": lambda: StrSub("s%d" % k),
+            "int-subclass": lambda: IntSub(k), "bytes-subclass": lambda: BytesSub(b"b%d" % k),
+            "float-subclass": lambda: FloatSub(k + 0.5), "frozenset-subclass": lambda: FrozensetSub([k, "y"])}[kind]()
+    base.probe = "%s-%d" % (kind, k)
+    return base
 
 
 class Budget(BaseException):
@@ -215,7 +286,7 @@ def op_line(p, mode, reprs, fuel=4000):
     for k, f in enumerate(fns):
         tbl[f["owner"]].append(k)
     for i, o in enumerate(p["data"]):
-        tbl[o].append(n + i)
+        tbl[data_owner(o)].append(n + i)
     ids = lambda xs: ",".join(str(x) for x in xs) if xs else "-"
     e = p["entry"]
     return "calls %s %d A %d%s tbl %s %s repr %d%s entry %s %d%s %d%s" % (
@@ -281,8 +352,14 @@ class World(object):
         self.proxy = {}       # (viewer side, (side, k)) -> netref
         for k, f in enumerate(prog["fns"]):
             self._add(f["owner"], k, self._make_fn(k))
+        self.kind_of = {}
+        self.obs = []         # what callees (and the root) observe of by-reference arguments: class name, an attribute, identity
         for i, o in enumerate(prog["data"]):
-            self._add(o, self.n + i, ["data", self.n + i])
+            obj = make_data(data_kind(o), self.n + i)
+            if id(obj) in self.by_id:      # an enum member is a singleton: one key per member and side
+                obj = ["data", self.n + i]
+            self._add(data_owner(o), self.n + i, obj)
+            self.kind_of[self.n + i] = data_kind(o) if type(obj) is not list else "list"
 
     def _add(self, side, k, obj):
         self.objs[(side, k)] = obj
@@ -353,12 +430,41 @@ class World(object):
             return "?%s" % type(obj).__name__
         return "R%s%d" % r
 
+    def observe(self, where, x):
+        """what code holding `x` can see of an object that travelled by reference: the name of its class, an attribute
+        of it, and which object it is (the Lean model says `ref`; this part of the comparison is real code only:
+        distributed run vs one-process run)"""
+        from rpyc.core import brine
+        if type(x) is tuple and not brine.dumpable(x):
+            for i, y in enumerate(x):
+                self.observe(where + (i,), y)
+            return
+        r = self.ref_of(x)
+        if r is not None and r[1] < self.n:
+            return                      # one of the program's functions
+        if r is None and brine.dumpable(x):
+            return                      # an immutable value: compared by value elsewhere
+        try:
+            cls = x.__class__.__name__
+        except Exception as ex:  # noqa
+            cls = "!" + type(ex).__name__
+        try:
+            probe = repr(x.probe)
+        except Exception as ex:  # noqa
+            probe = "!" + type(ex).__name__
+        self.obs.append((where, cls, probe, "R%s%d" % r if r is not None else "a copy"))
+
     # -- the interpreter
     def invoke(self, fid, args, kwargs):
         self.invocations += 1
         if self.invocations > MAX_INVOCATIONS:
             raise Budget()
         self.counts[fid] += 1
+        if self.kind_of and len(self.obs) < 400:
+            for i, a in enumerate(args):
+                self.observe((fid, self.counts[fid], i), a)
+            for kname, a in kwargs.items():
+                self.observe((fid, self.counts[fid], kname), a)
         st = self.stats
         st["depth"] += 1
         st["max_depth"] = max(st["max_depth"], st["depth"])
@@ -431,6 +537,7 @@ class World(object):
         self.dist = dist
         self.counts = [0] * self.n
         self.invocations = 0
+        self.obs = []
         for k in self.stats:
             self.stats[k] = 0
 
@@ -468,6 +575,8 @@ def show_outcome(world, fn):
     raw = []
     try:
         v = fn()
+        if world.kind_of:
+            world.observe(("root",), v)
         out = "ret " + world.text(v)
     except Budget:
         raise
@@ -485,6 +594,7 @@ def show_outcome(world, fn):
 def run_local(world):
     world.reset(False)
     out, raw = show_outcome(world, world.entry)
+    world.obs_local = list(world.obs)
     return out, list(world.counts), raw, dict(world.stats)
 
 
@@ -508,7 +618,8 @@ def run_dist(world):
     net = Net()
     info = {}
     with net.installed():
-        ca, cb = net.connect_pair(None, SideB())
+        # public attributes readable: the observation `x.probe` of a by-reference argument is an attribute read
+        ca, cb = net.connect_pair(None, SideB(), dict(allow_public_attrs=True), dict(allow_public_attrs=True))
         try:
             try:
                 root = ca.root
@@ -627,7 +738,7 @@ class ProgGen(object):
         self.fns = []
         self.sigs = {}
         self.done = []          # completed function ids
-        self.data = [r.choice("AB") for _ in range(r.below(4))]
+        self.data = [r.choice("AB") + ":" + r.choice(DATA_KINDS) for _ in range(r.below(6))]
         self.budget = 2 + r.below(14)    # functions
         self.overlimit = r.chance(1, 60)
         self.n_fns_placeholder = 1000    # data object keys are renumbered after the functions are known
@@ -652,7 +763,7 @@ class ProgGen(object):
             return self.fn_ref(r.choice(self.done))
         if self.data:
             i = r.below(len(self.data))
-            return Ref(self.data[i], self.n_fns_placeholder + i)
+            return Ref(data_owner(self.data[i]), self.n_fns_placeholder + i)
         return None
 
     def expr(self, scope, depth=2):
@@ -806,7 +917,7 @@ class ProgGen(object):
                 return self.value()
             if k < 7 and self.data:
                 i = r.below(len(self.data))
-                return Ref(self.data[i], n + i)
+                return Ref(data_owner(self.data[i]), n + i)
             if k < 9:
                 return self.fn_ref(r.choice(self.done))
             return (self.value(1), self.fn_ref(0))
@@ -894,6 +1005,19 @@ def boundary_programs():
            dict(owner="B", body=[("call", 0, V(R_("A", 2)), [], []), ("call", 0, V(R_("A", 2)), [], [])]),
            dict(owner="A", body=[])]
     out.append(dict(fns=fns, data=[], entry=dict(callee=R_("A", 0), args=[], kwargs=[])))
+    # everything that is not an exact instance of brine's types travels by reference: namedtuple, tuple / str / int /
+    # bytes / float / frozenset subclass instances, enum members - as positional and keyword arguments, callback
+    # arguments, results; the callee reads their class name and an attribute, the root gets the very objects back
+    kinds_a = ["A:namedtuple", "A:tuple-subclass", "A:str-subclass", "A:int-subclass", "A:enum"]
+    kinds_b = ["B:frozenset-subclass", "B:bytes-subclass", "B:float-subclass", "B:namedtuple", "B:tuple-subclass"]
+    fns = [dict(owner="B", body=[("call", 0, V(R_("A", 1)), [("a", 0), ("a", 1), V(R_("B", 7))], [("key", ("a", 2)), ("x", V(R_("B", 10)))]),
+                                 ("ret", ("t", [("v", 0), ("a", 3), ("a", 4), V(R_("B", 11))]))]),
+           dict(owner="A", body=[("ret", ("t", [("a", 1), ("k", "key"), ("a", 2), ("k", "x"), V((R_("B", 8), (1, R_("B", 9))))]))])]
+    out.append(dict(fns=fns, data=kinds_a + kinds_b,
+                    entry=dict(callee=R_("B", 0), args=[R_("A", 2), R_("A", 3), R_("A", 4), R_("A", 5), R_("A", 6)], kwargs=[])))
+    fns = [dict(owner="A", body=[("call", 0, V(R_("B", 1)), [V(R_("A", 2))], [("nt", V(R_("A", 3)))]), ("raise", "ValueError", [("v", 0), V(R_("A", 4))])]),
+           dict(owner="B", body=[("ret", ("t", [("k", "nt"), ("a", 0)]))])]
+    out.append(dict(fns=fns, data=["A:tuple-subclass", "A:namedtuple", "A:str-subclass"], entry=dict(callee=R_("A", 0), args=[], kwargs=[])))
     # a function returned as a result and then called; a tuple of functions
     fns = [dict(owner="A", body=[("call", 0, V(R_("B", 1)), [], []), ("call", 1, ("v", 0), [V(1)], [("x", V(2))]), ("ret", ("t", [("v", 0), ("v", 1)]))]),
            dict(owner="B", body=[("ret", V(R_("B", 2)))]),
@@ -923,6 +1047,8 @@ def run_case(prog):
     except (Budget, RecursionError):
         return None
     res.dist = (do, dc)
+    res.obs_dist = list(world.obs)
+    res.obs_local = list(world.obs_local)
     res.stats = dstats
     res.info = info
     # repr table for the model: the non-serializable exception arguments seen at the root (identical objects in
@@ -972,6 +1098,11 @@ def oracle_case(prog, res=None):
         return "distributed run gives `%s`, the same program in one process gives `%s`" % (res.dist[0][:300], res.local[0][:300])
     if res.dist[1] != res.local[1]:
         return "invocation counts differ: distributed %s, one process %s" % (res.dist[1], res.local[1])
+    if res.obs_dist != res.obs_local:
+        for a, b in zip(res.obs_dist + [None] * len(res.obs_local), res.obs_local + [None] * len(res.obs_dist)):
+            if a != b:
+                return ("an argument / result that must travel by reference is seen differently: distributed run observes "
+                        "%r (where, class, .probe, object), one process observes %r" % (a, b))
     return None
 
 
@@ -1056,12 +1187,19 @@ def correspondence(ctx):
         c.count("exceptions-caught-after-crossing-the-connection", st["caught_remote"])
         c.count("frames", res.info.get("frames", 0))
         c.count("invocations", sum(res.dist[1]))
+        for (_where, cls, _probe, _ref) in res.obs_local:
+            c.count("by-reference object observed at a callee / the root (real code only):" + cls)
         if st["remote_calls"] > 0:
             c.signatures.add(signature_of(prog, res))
         if len(c.samples) < 10 and i % 97 == 5:
             c.samples.append(dict(functions=len(prog["fns"]), owners="".join(f["owner"] for f in prog["fns"]),
                                   outcome=fmt(*res.dist)[:200], remote_calls=st["remote_calls"], max_depth=st["max_depth"]))
     c.extra["programs"] = len(cases)
+    c.extra["by_reference_observation"] = (
+        "arguments / results that are not exact instances of brine's types (namedtuple, tuple/str/int/bytes/float/"
+        "frozenset subclass instances, enum members, lists, dicts) are `ref` in the Lean model; what a callee can see of "
+        "them - class name, the attribute `probe`, which object it is - is compared between the real distributed run "
+        "and the real one-process run only (part of the oracle)")
     c.exhaustive = False
     return c
 
